@@ -1,7 +1,7 @@
 (* UTF-8 as CPython's bytes(s,'utf8') / bytes.decode('utf-8') (strict): code points are N.
    enc_cp fails on surrogates and values >= 0x110000 (UnicodeEncodeError); the decoder rejects
    overlong forms, surrogates, > U+10FFFF and stray continuation bytes. *)
-From Coq Require Import NArith List Bool Lia ZifyBool ZifyN ZifyNat.
+From Coq Require Import ZArith NArith List Bool Lia ZifyBool ZifyN ZifyNat.
 Require Import ListN Bytes.
 Import ListNotations.
 Open Scope N_scope.
@@ -30,7 +30,8 @@ Definition dec_cp (l : bytes) : option N :=
       if cont b1 && cont b2 && cont b3 && (0x10000 <=? c) && valid_scalar c then Some c else None
   | _ => None
   end.
-(* ---- exhaustive sweep over all code points (finite domain => a proof) ---- *)
+(* ---- dec_cp (enc_cp_raw c) = c for every scalar value: case analysis on the four length classes, linear
+   arithmetic with euclidean division (no enumeration of code points) ---- *)
 Definition cp_ok (c : N) : bool :=
   negb (valid_scalar c) ||
   match enc_cp_raw c with
@@ -38,23 +39,47 @@ Definition cp_ok (c : N) : bool :=
   | (b0 :: _) as e => (width b0 =? lenN e) && all_bytes e &&
                     match dec_cp e with Some c' => c' =? c | None => false end
   end.
-Fixpoint all_from (n : nat) (base : N) (p : N -> bool) : bool :=
-  match n with O => true | S k => p base && all_from k (base + 1) p end.
-Lemma all_from_spec n p : forall base, all_from n base p = true ->
-  forall c, base <= c -> c < base + N.of_nat n -> p c = true.
-Proof.
-  induction n as [|n IH]; intros base H c Hlo Hhi; [lia|].
-  cbn [all_from] in H. apply andb_true_iff in H. destruct H as [H0 H1].
-  destruct (N.eq_dec c base) as [->|Hne]; [exact H0|].
-  apply (IH (base + 1) H1); lia.
-Qed.
-Lemma sweep_ok : all_from (N.to_nat 0x110000) 0 cp_ok = true.
-Proof. vm_compute. reflexivity. Qed.
+Local Ltac Zify.zify_post_hook ::= Z.div_mod_to_equations.
 Lemma cp_ok_all c : cp_ok c = true.
 Proof.
-  destruct (N.ltb_spec c 0x110000) as [Hlt|Hge].
-  - apply (all_from_spec _ _ 0 sweep_ok); lia.
-  - unfold cp_ok, valid_scalar. destruct (N.ltb_spec c 0x110000); [lia|]. reflexivity.
+  unfold cp_ok. destruct (valid_scalar c) eqn:Hv; [|reflexivity]. cbn [negb orb].
+  unfold valid_scalar in Hv. unfold enc_cp_raw.
+  destruct (c <? 0x80) eqn:H1.
+  { unfold width, all_bytes, is_byte, lenN, dec_cp; cbn [forallb length]. rewrite H1.
+    repeat (apply andb_true_iff; split); lia. }
+  destruct (c <? 0x800) eqn:H2.
+  { set (b0 := 0xC0 + c / 64). set (b1 := 0x80 + c mod 64).
+    assert (Hb0 : 0xC2 <= b0 < 0xE0) by (subst b0; lia).
+    assert (Hb1 : 0x80 <= b1 < 0xC0) by (subst b1; lia).
+    assert (Hc : (b0 - 0xC0) * 64 + (b1 - 0x80) = c) by (subst b0 b1; lia).
+    unfold width, all_bytes, is_byte, lenN, dec_cp, cont; cbn [forallb length].
+    destruct (b0 <? 0x80) eqn:?; [lia|]. destruct (b0 <? 0xC2) eqn:?; [lia|]. destruct (b0 <? 0xE0) eqn:?; [|lia].
+    destruct ((0x80 <=? b1) && (b1 <? 0xC0)) eqn:?; [|lia]. rewrite Hc.
+    repeat (apply andb_true_iff; split); lia. }
+  destruct (c <? 0x10000) eqn:H3.
+  { set (b0 := 0xE0 + c / 4096). set (b1 := 0x80 + (c / 64) mod 64). set (b2 := 0x80 + c mod 64).
+    assert (Hb0 : 0xE0 <= b0 < 0xF0) by (subst b0; lia).
+    assert (Hb1 : 0x80 <= b1 < 0xC0) by (subst b1; lia).
+    assert (Hb2 : 0x80 <= b2 < 0xC0) by (subst b2; lia).
+    assert (Hc : (b0 - 0xE0) * 4096 + (b1 - 0x80) * 64 + (b2 - 0x80) = c) by (subst b0 b1 b2; lia).
+    unfold width, all_bytes, is_byte, lenN, dec_cp, cont; cbn [forallb length].
+    destruct (b0 <? 0x80) eqn:?; [lia|]. destruct (b0 <? 0xC2) eqn:?; [lia|]. destruct (b0 <? 0xE0) eqn:?; [lia|].
+    destruct (b0 <? 0xF0) eqn:?; [|lia].
+    rewrite Hc. unfold valid_scalar.
+    destruct ((0x80 <=? b1) && (b1 <? 0xC0) && ((0x80 <=? b2) && (b2 <? 0xC0)) && (0x800 <=? c) && ((c <? 0x110000) && negb ((0xD800 <=? c) && (c <? 0xE000)))) eqn:?; [|lia].
+    repeat (apply andb_true_iff; split); lia. }
+  { set (b0 := 0xF0 + c / 262144). set (b1 := 0x80 + (c / 4096) mod 64). set (b2 := 0x80 + (c / 64) mod 64). set (b3 := 0x80 + c mod 64).
+    assert (Hb0 : 0xF0 <= b0 < 0xF5) by (subst b0; lia).
+    assert (Hb1 : 0x80 <= b1 < 0xC0) by (subst b1; lia).
+    assert (Hb2 : 0x80 <= b2 < 0xC0) by (subst b2; lia).
+    assert (Hb3 : 0x80 <= b3 < 0xC0) by (subst b3; lia).
+    assert (Hc : (b0 - 0xF0) * 262144 + (b1 - 0x80) * 4096 + (b2 - 0x80) * 64 + (b3 - 0x80) = c) by (subst b0 b1 b2 b3; lia).
+    unfold width, all_bytes, is_byte, lenN, dec_cp, cont; cbn [forallb length].
+    destruct (b0 <? 0x80) eqn:?; [lia|]. destruct (b0 <? 0xC2) eqn:?; [lia|]. destruct (b0 <? 0xE0) eqn:?; [lia|].
+    destruct (b0 <? 0xF0) eqn:?; [lia|]. destruct (b0 <? 0xF5) eqn:?; [|lia].
+    rewrite Hc. unfold valid_scalar.
+    destruct ((0x80 <=? b1) && (b1 <? 0xC0) && ((0x80 <=? b2) && (b2 <? 0xC0)) && ((0x80 <=? b3) && (b3 <? 0xC0)) && (0x10000 <=? c) && ((c <? 0x110000) && negb ((0xD800 <=? c) && (c <? 0xE000)))) eqn:?; [|lia].
+    repeat (apply andb_true_iff; split); lia. }
 Qed.
 
 Lemma enc_cp_facts c e : enc_cp c = Some e ->
